@@ -265,6 +265,14 @@ pub mod io {
         Ok(())
     }
 
+    /// The file offset a `write` on `fd` would go to now (for writes through the descriptor's own
+    /// position: the recorded offset must be where the bytes really land).
+    pub fn current_offset(fd: RawFd) -> u64 {
+        // SAFETY: lseek with SEEK_CUR and offset 0 only reads the descriptor's position.
+        let off = unsafe { libc::lseek(fd, 0, libc::SEEK_CUR) };
+        off.max(0) as u64
+    }
+
     /// To be called right before a mutating syscall on `fd`.
     pub fn before_fd(fd: RawFd, kind: Kind) -> std::io::Result<()> {
         if !is_enabled() {
